@@ -385,6 +385,37 @@ def _eval_commands_here(tree_id, width):
             got = {r[0]: tuple(int(CELL.match(c).group(1)) for c in r[1:]) for r in rows if r and r[0] in stored and all(CELL.match(c) for c in r[1:])}
             if got != stored:
                 out.append(("report-command-numbers-wrong", {"format": fmt.value, "columns": width}, f"{got} vs stored {stored}"))
+            # the same command with a comparison report that was written LATER (and one written earlier) and has other numbers: the
+            # overview still shows the CURRENT report's figures, annotated with current minus comparison
+            for when in ("2000-01-01T00:00:00", "2999-01-01T00:00:00"):
+                other = json.loads(json.dumps(doc))
+                other["timestamp"] = when
+                # the comparison code base has one file more per language (a copy of an existing entry under another path)
+                want_delta = {}
+                for pth, ent in list(doc["codebase"]["files"].items()):
+                    if ent["language"] in want_delta:
+                        continue
+                    other["codebase"]["files"]["extra_" + pth.replace("/", "_")] = json.loads(json.dumps(ent))
+                    want_delta[ent["language"]] = (-1, -len(ent["measurements"]), -ent["loc"])
+                dp = root / f"comparison-{when[:4]}.json"
+                dp.write_text(json.dumps(other))
+                code, text, exc = harness.run_cli_function(report_command, Path("."), fmt, dp)
+                if exc is not None or code not in (None, 0):
+                    out.append(("report-command-failed", {"format": fmt.value, "diff": when[:4]}, repr(exc) + text[-200:]))
+                    continue
+                rows = (parse_text_table if fmt == ReportFormat.text else parse_markdown_table)(text)
+                shown = {r[0]: [CELL.match(c) for c in r[1:]] for r in rows if r and r[0] in stored}
+                for lang, cells in shown.items():
+                    if any(c is None for c in cells):
+                        continue
+                    nums = tuple(int(c.group(1)) for c in cells)
+                    deltas = tuple(c.group(2) for c in cells)
+                    wd = tuple(str(x) if x else None for x in want_delta.get(lang, (0, 0, 0)))
+                    if nums != stored[lang] or deltas[:3] != wd:
+                        out.append(("report-command-numbers-wrong", {"format": fmt.value, "columns": width, "comparison_written": "later" if when.startswith("2999") else "earlier"},
+                                    f"{lang}: shown {nums} {deltas}, stored {stored[lang]} with deltas {wd}"))
+                if not shown:
+                    out.append(("report-command-numbers-wrong", {"format": fmt.value, "columns": width, "what": "no-rows"}, text[-300:]))
             for full in (False, True):
                 code, text, exc = harness.run_cli_function(findings_command, Path("."), full, fmt)
                 if exc is not None or code not in (None, 0):
